@@ -108,7 +108,10 @@ def jobs_for(prop, tier, seed):
     elif prop == "C02":
         J += conc(prop, seed, ["steady", "view", "quiesce", "last-sender", "add-stream-sole", "handle-churn"], n, s,
                   extra=[["--policy", "stall"], [], ["--policy", "yield"]])
-        J.append(miri(prop, seed, "steady", ["conc", "--families", "steady", "--runs", "2"], ms, mt, {"*": "C02,C04,C16"}, no_race=True, base=7))
+        J.append(miri(prop, seed, "steady", ["conc", "--families", "steady", "--runs", "2"], ms // 2, mt, {"*": "C02,C04,C16"}, no_race=True, base=7))
+        # the orderings that make "position p holds value p" true on weakly ordered hardware are invisible
+        # natively on x86: here Miri's race detector stands in (broadcast only, see DESIGN.md 9.1)
+        J.append(miri(prop, seed, "steady-races", ["conc", "--families", "steady,view", "--runs", "2", "--fl", "broadcast"], ms // 2, mt, {"*": "C02,C04,C16"}, base=9))
     elif prop == "C03":
         J += conc(prop, seed, ["steady", "view", "remove-stream", "wrap-slow-clone", "add-stream-sole", "no-receiver"], n, s)
         J.append(miri(prop, seed, "steady", ["conc", "--families", "steady,wrap-slow-clone", "--runs", "2", "--fl", "broadcast"], ms, mt, {"*": "C03,C04,C16"}, base=11))
